@@ -75,6 +75,16 @@ func main() {
 	for i := 0; i < nRace; i++ {
 		jobs = append(jobs, job{"race", i})
 	}
+	// directed cases: opposite / cyclic orders over managers with timeout setting 0 or negative
+	nDirected := r.Pick(4, 40)
+	for i := 0; i < nDirected; i++ {
+		jobs = append(jobs, job{"behav", directedBase + i})
+	}
+	if nRace > 0 {
+		for i := 0; i < r.Pick(1, 8); i++ {
+			jobs = append(jobs, job{"race", directedBase + i})
+		}
+	}
 	for i := 0; i < nBehav; i++ {
 		jobs = append(jobs, job{"behav", i})
 	}
@@ -95,6 +105,7 @@ func main() {
 	timeouts := map[int]int{}
 	nctx := map[int]int{}
 	nmgr := map[int]int{}
+	directed := map[string]int{}
 	raceSigs := map[string]int{}
 	var raceObs []any
 	evaluations := 0
@@ -171,6 +182,9 @@ func main() {
 			kinds[vs.Kind]++
 			timeouts[vs.TimeoutMs]++
 		}
+		if o.c.Directed != "" {
+			directed[o.c.Directed]++
+		}
 		nctx[o.c.NCtx]++
 		nmgr[len(o.c.Vars)]++
 		if o.c.Disrupt != "" {
@@ -185,7 +199,7 @@ func main() {
 	extra := map[string]any{
 		"totals": tot, "edges": edges, "aborted_attempts": aborted, "wrappings": wraps, "variable_kinds": kinds,
 		"lock_timeouts_ms": intKeys(timeouts), "contexts_per_case": intKeys(nctx), "managers_per_case": intKeys(nmgr),
-		"races_observed": len(raceSigs), "race_observations": raceObs, "deadlock_criterion_pre_rounds": preRounds,
+		"races_observed": len(raceSigs), "race_observations": raceObs, "deadlock_criterion_pre_rounds": preRounds, "directed_cases": directed,
 	}
 	floor := r.Pick(10, 100)
 	r.Finish(common.Coverage{
@@ -196,10 +210,10 @@ func main() {
 		Floor:              floor,
 		Extra:              extra,
 	}, []string{
-		"held on the executions observed: configurations and plans are PRNG-generated (2-8 contexts, 1-6 managers, timeouts 1-50 ms); interleavings are whatever the Go scheduler, the perturbation and the code's own timeouts produced",
+		"held on the executions observed: configurations and plans are PRNG-generated (2-8 contexts, 1-6 managers, timeout settings -1, 0, 1-50 ms) plus directed opposite-order cases over managers with timeout setting 0 / negative; interleavings are whatever the Go scheduler, the perturbation and the code's own timeouts produced",
 		"the H1 commit-point hook runs while the section still holds every lock it took; its sequence numbers are taken under one harness mutex",
 		"real-time edges use a sequence number taken before the attempt's first shared access and one taken after every Commit returned (a subset of true real-time precedence)",
-		"deadlock is decided only logically: H8 events show every running sharer inside the same tryEnsureLock call, each waiting for a variable held by another such sharer, unchanged across 5 rounds of canaries that wait exactly like acquireWithTimeout, AND the goroutine states show every one of them blocked in a channel operation without a timeout alternative; sharers late in the timed select (timer/scheduler stalls of the machine), watchdog expiries and stalls are inconclusive",
+		"deadlock is decided only logically: H8 events show every running sharer inside the same tryEnsureLock call, each waiting for a variable held by another such sharer, unchanged across 5 rounds of canaries that wait exactly like acquireWithTimeout, AND the goroutine states show every one of them blocked without a timeout alternative (a plain channel operation, or the acquisition select of a manager whose timeout setting is <= 0, which Go >= 1.23 never parks in when an expiry case exists); sharers late in the timed select (timer/scheduler stalls of the machine), watchdog expiries and stalls are inconclusive",
 		"race batches use no H8 callbacks and no cross-context harness synchronisation; only races whose two accesses are on LocalArchetypeResource.value/oldValue or localShared.hasLock decide",
 	})
 }
@@ -298,31 +312,12 @@ func doReplay(r *common.Run) {
 	}
 	if d := f.Witness.Deadlock; d != nil && strings.HasPrefix(f.Key, "C07:deadlock") {
 		// re-evaluate the logical criterion on the stored goroutine dump and H8 snapshot
-		all := len(d.Sharers) > 0
-		for _, s := range d.Sharers {
-			if v, ok := s["parked_in_tryEnsureLock_call"].(float64); !ok || v == 0 {
-				all = false
-			}
-		}
-		blocked, timed := 0, 0
-		for _, g := range parseGoroutines(d.Goroutines) {
-			isSharer := false
-			for _, fr := range g.frames {
-				if strings.Contains(fr, "distsys.(*MPCalContext).Run") {
-					isSharer = true
-				}
-			}
-			if !isSharer || !inLocalShared(g.frames, 4) {
-				continue
-			}
-			if untimedBlock(g.state) {
-				blocked++
-			} else if g.state == "select" {
-				timed++
-			}
-		}
-		if all && blocked == len(d.Sharers) && timed == 0 {
-			report(f.Key, fmt.Sprintf("replayed: all %d running sharers blocked in tryEnsureLock without a timeout alternative, in a wait-for cycle", blocked), map[string]any{"deadlock": d})
+		snaps := append([]SharerSnap(nil), d.Sharers...)
+		if set := deadlockedSet(snaps, d.Goroutines); len(set) > 0 {
+			d2 := *d
+			d2.Sharers, d2.BlockedNoTimeout, d2.Running = snaps, len(set), len(snaps)
+			key, desc := deadlockKey(&d2)
+			report(key, "replayed: "+desc, map[string]any{"deadlock": &d2})
 		}
 	}
 	if rr := f.Witness.Race; rr != nil {
